@@ -13,7 +13,7 @@ REPL_T = {3, 7, 8}
 RESP_T = {4, 9}
 
 TIERS = {
-    "quick": ["--runs", "120", "--steps", "500"],
+    "quick": ["--runs", "200", "--steps", "500"],
     "thorough": ["--runs", "1500", "--steps", "800"],
 }
 
@@ -83,7 +83,7 @@ def cache_key(tier, seed):
     for p in (C.VH, C.DRIVER):
         st = os.stat(p)
         h.update(("%s:%d:%d" % (p, st.st_mtime_ns, st.st_size)).encode())
-    h.update(("v8:%s:%s" % (tier, seed)).encode())
+    h.update(("v10:%s:%s" % (tier, seed)).encode())
     return h.hexdigest()[:16]
 
 
